@@ -155,7 +155,59 @@ func c14RandomCall(r *gen.Rand, handlerSeq *int32) amCall {
 	}
 }
 
+// c14Collisions: several terminators of ONE registered transaction are released at the same instant, thousands of
+// times: exactly one of them may emit the terminal event (and report success, for Stop).
+func c14Collisions(c *core.Ctx, rounds int, mix int) {
+	for k := 0; k < rounds; k++ {
+		var events int32
+		a := stun.NewAgent(func(stun.Event) { atomic.AddInt32(&events, 1) })
+		id := amTID(int8(k % amIDs))
+		_ = a.Start(id, amTime(0))
+		const g = 4
+		var start int32
+		var wg sync.WaitGroup
+		okStops := int32(0)
+		for i := 0; i < g; i++ {
+			wg.Add(1)
+			go func(i int) {
+				defer wg.Done()
+				for atomic.LoadInt32(&start) == 0 { //nolint:revive // spin barrier
+				}
+				switch (i + mix) % 4 {
+				case 0, 1:
+					if a.Stop(id) == nil {
+						atomic.AddInt32(&okStops, 1)
+					}
+				case 2:
+					_ = a.Collect(amTime(3))
+				default:
+					if mix%2 == 0 {
+						_ = a.Close()
+					} else if a.StopWithError(id, errCustomStop) == nil {
+						atomic.AddInt32(&okStops, 1)
+					}
+				}
+			}(i)
+		}
+		atomic.StoreInt32(&start, 1)
+		wg.Wait()
+		_ = a.Close() // whatever is left is terminated here
+		if n := atomic.LoadInt32(&events); n != 1 || okStops > 1 {
+			c.Violate("double-termination", "double-termination:collision", map[string]interface{}{
+				"round": k, "terminal_events": n, "stops_reporting_success": okStops, "mix": mix})
+
+			return
+		}
+	}
+	c.Eval(int64(rounds))
+	c.Count("terminator_collision_rounds", int64(rounds))
+}
+
 func c14(c *core.Ctx) {
+	c.Section("terminator-collisions", 8, func(i int64, _ *gen.Rand) {
+		c14Collisions(c, int(c.N(3000, 100000)), int(i))
+		c.Distinct(uint64(i) | 3<<50)
+	})
 	n := c.N(400, 200000)
 	if c.Config == "race" {
 		n = c.N(300, 60000)
